@@ -124,6 +124,16 @@ CHECKS.update({
              note=TB + '; the Go race detector is the observer of data races (a TLA+ specification cannot decide them); silence is evidence, not proof'),
 })
 
+CHECKS.update({
+ 'C04': dict(engine='robust', ref='6/C04', technique='the TLC-enumerated state spaces of all other engines (words of the bounded JSON language, patch-document mutation table, '
+             'operation sequences under every option combination, merge/diff/equal universes) replayed into every entry point of v5 AND the legacy '
+             'package under recover() and a watchdog',
+             text='The oracle is trivial (the call returned); the weight is on inputs, and those are the bounded state spaces of the specification: '
+                  '~6*10^4 words x every []byte parameter, as documents under five multi-operation probe patches x six option sets and as patches on '
+                  'six probe documents; ~2*10^3 mutated patch documents; ~9*10^5 one- and two-operation behaviours under all 48 option/limit '
+                  'combinations; ~5*10^5 merge/diff/equal cases; both packages. Only panics and hangs count.'),
+})
+
 NA = {}
 
 
@@ -163,6 +173,7 @@ def main():
              'kind_free_text': 'scanner push-down automaton and its transducers transcribed to TLA+, declarative grammar, encoder spelling'},
             {'name': 'cli', 'path': 'spec/Cli.tla', 'serves_properties': ['C20'], 'kind_free_text': 'state machine of cmd/json-patch'},
             {'name': 'process', 'path': 'spec/History.tla', 'serves_properties': ['C09', 'C10'], 'kind_free_text': 'the API as a set of pure calls over shared buffers; sequential histories and multi-process interleavings'},
+            {'name': 'robust', 'path': 'harness/cmd/replay (prop C04)', 'serves_properties': ['C04'], 'kind_free_text': 'every family of the replayer run with the panic/hang oracle on both packages'},
             {'name': 'patch', 'path': 'spec/Patch6902.tla spec/MCPatch.tla harness/cmd/replay', 'serves_properties':
                 ['C01', 'C05', 'C08', 'C12', 'C13', 'C14', 'C15'],
              'kind_free_text': 'TLA+ reference machine for RFC 6902 application, TLC-enumerated, transitions replayed into the library'},
